@@ -346,11 +346,15 @@ def run_hist(env, w):
                 out[(k, nm, "avail")] = wk.resources.get_available_quantity(r)
                 out[(k, nm, "alloc")] = wk.resources.get_allocated_quantity(r)
             out[(k, "tasks")] = sorted(t.name for t in wk.get_placed_tasks())
+            # how long until the profile is usable on this worker (0 = loaded, -1 = not requested, > 0 = still loading)
+            out[(k, "profile", "avail")] = wk.is_available(prof).time
         return out
 
-    def snap_equal(a, b):
+    def snap_equal(a, b, loading_may_progress=False):
         conds = []
         for key in a:
+            if loading_may_progress and key[1:] == ("profile", "avail"):
+                continue  # stepping the worker advances a pending load
             if key[-1] == "tasks":
                 conds.append(a[key] == b[key])
             else:
@@ -478,7 +482,7 @@ def run_hist(env, w):
                 env.require("hist:refused-unchanged", snap_equal(before, snapshot(workers)), info=tag)
         elif op == "step":
             done = pool.step(EventTime(step, US), EventTime(3, US)) if level == "pool" else workers[0].step(EventTime(step, US), EventTime(3, US))
-            env.require("hist:step-keeps-ledger", snap_equal(before, snapshot(workers)), info=tag)
+            env.require("hist:step-keeps-ledger", snap_equal(before, snapshot(workers), loading_may_progress=True), info=tag)
         elif op == "copy":
             cws = _copy.copy(pools) if level == "pool" else None
             cw = [w_ for p_ in cws.worker_pools for w_ in p_.workers] if cws is not None else [_copy.copy(workers[0])]
